@@ -1,4 +1,5 @@
 """Matching logical objects"""
+import operator as py_operator
 import warnings
 from abc import ABCMeta, abstractmethod
 from collections import namedtuple
@@ -418,8 +419,9 @@ class Condition(MatchCriteria):
         if left_value is None or right_value is None:
             raise ComparisonError(f"Error comparing {left_value} and {right_value}. Neither should be None.")
 
-        # x.__le__(y) style call
-        return getattr(left_value, operator)(right_value)
+        # operator.__le__(x, y) style call. Calling x.__le__(y) directly returns NotImplemented
+        # for mixed operand types, e.g. an integer value compared with a float value.
+        return getattr(py_operator, operator)(left_value, right_value)
 
 
 class Anded(namedtuple('Anded', ['conditions', 'ors'])):
